@@ -66,6 +66,19 @@ CHECKS['C15'] = dict(
    technique='Coq proof (normal equations of the closed-form line and of the polynomial fit via c08_solves, optimality identity SSE(c\')=SSE(c)+sum(p_c-p_c\')^2, statistics formulas, gradient-descent error recurrence) + bit-for-bit correspondence + exact oracle scaled by the moment-matrix condition',
    text='10 theorems: c15_ls_normal, c15_poly_normal, c15_poly_outcomes, c15_optimal (no other coefficients give a smaller sum of squares), c15_order1_is_line, c15_order_monotone, c15_stats (r2, std_err, predict are the textbook functions of the returned coefficients for all three regressors), c15_gd_iterates/recurrence (e\' = (I - alpha H) e with the normal-equation solution as fixed point); pivot tolerance re-read from polynomial.rs into the model on every run',
    note=COMMON_NOTE + '; the gradient-descent contraction bound rho^k is checked by the oracle only', ref='DESIGN.md §5 C15')
+
+CHECKS['C06'] = dict(
+   technique='Coq proof (loop as structural recursion on the cap: soundness of every returned value, initial-guess rejection, no panic / no endless loop for every arithmetic, bracket invariants, IVT-based location of a root, exit-before-cap implies Ok under a Lipschitz condition) + bit-for-bit correspondence (libm-bridged for the multivariate type) + exact oracle',
+   text='12 theorems: c06_sound (Ok x => lo <= x <= hi and |g(x)| < the residual gate re-read from the source), both polynomial types and modes, c06_init_rejected / reversed bracket, c06_total (all instances: never a panic, at most cap+1 bodies), sign-change invariant, root-at-lower-end and stale-zero repairs as positive theorems, c06_finds_root_partial + c06_exit_before_cap_is_ok (converse up to "the loop exits before the cap", which the oracle decides with cap >= 1200)',
+   note=COMMON_NOTE + '; one known finding (F-C06-LOOSE-TOL: coarse tolerance exits before the fixed 1e-4 residual gate can pass)', ref='DESIGN.md §5 C06')
+CHECKS['C07'] = dict(
+   technique='Coq proof (Newton step and relative-tolerance facts on every Ok, Taylor-Lagrange second-order residual bound for polynomial targets, no panic and at most max(cap,1) iterations, exact-root acceptance, one-step monotonicity) + bit-for-bit correspondence + exact oracle',
+   text='7 theorems: c07_sound and c07_sound_simple (Ok x => x = x\' - g x\'/g\' x\', |x - x\'|*100 < tol*|x| or g x = 0, and g x = g\'\'(xi)/2 (x-x\')^2 hence the stated residual bound), c07_total (all instances), c07_zero_root, c07_stale_100_repaired, c07_monotone_partial (one step towards the extreme root under convexity; convergence within budget is decided by the oracle)',
+   note=COMMON_NOTE + '; one known finding (F-C07-OVERFLOW: coefficients >= 2^1000)', ref='DESIGN.md §5 C07')
+CHECKS['C17'] = dict(
+   technique='Coq proof (exact {:.p} formatting of binary64 in integer arithmetic with its half-to-even rounding contract; string-level round trips of Display through the parser models for default and every precision) + exact text correspondence with Rust formatting + read-back oracle through the real parsers',
+   text='10 theorems, none partial: c17_fmt_prec_exact/sign and c17_precision_number (printed decimals read back within 1/2*10^-p), c17_simple_default and c17_inter_default/term (identical coefficients and exponents under H1/H2 on the shortest-float printer, which are measured on every printed float), c17_precision_simple / c17_precision_inter (every precision), c17_model_string (to_polynomial_string), zero polynomial cases; model text equals Rust text exactly on all cases incl. ties, subnormals, -0.0',
+   note=COMMON_NOTE + '; H1/H2 about Rust\'s shortest float formatting are Section hypotheses measured at run time', ref='DESIGN.md §5 C17')
 NOT_APPLICABLE = {}
 ALL = ['C%02d' % i for i in range(1, 21)]
 PENDING_REASON = 'not claimed yet in this revision: model/proof under construction (see DESIGN.md §9); no check is registered so nothing is asserted'
